@@ -29,6 +29,11 @@ only after the previous one was consumed by the thread it addresses):
 After the last event the script is "drained": readers get EOF, unless the stream
 is listed in case["never_eof"] (a descendant keeps the pipe open).
 
+Opt-in per case (C14): case["pending_at_timer"] -- the in/in_eof events directly after a
+timer event are input already queued when the timer fires (released atomically with the
+expiry); case["real_kill"] -- kill() is the real Local.kill, run on a stand-in child process
+whose stdin pipe object is the scripted child-stdin sink.  Without them nothing changes.
+
 Only in the harness process: threading.Timer and invoke.terminals.ready_for_reading
 (plus their `from ... import` copies in invoke.runners, if any) are replaced by
 dispatchers that behave as the originals except for objects belonging to a
